@@ -214,7 +214,7 @@ def run(tier: str) -> int:
     ck.cov["rule"] = ("A: Recursion.tla — every assignment of one edge (none/include/render/extends/extends+block+include/call) per template "
                       "over 2 (thorough 3) templates with the edge at block depth 0/12/29 (thorough +5,20); expected status from the model; rendered "
                       "sync+async under a %ds CPU-time alarm. B: BlockParser.tla token sequences parsed+rendered under strict/warn/lax under the same alarm" % ALARM)
-    L = 4 if tier == "quick" else 6
+    L = 4 if tier == "quick" else 5
     jobs_tlc, names = [], []
     try:
         rec = gen_cfg("cfg/Recursion.tmpl", dict(Templates='{"t1","t2"}' if tier == "quick" else '{"t1","t2","t3"}',
@@ -237,8 +237,8 @@ def run(tier: str) -> int:
     graphs = rrec.emitted
     # the same families with directory-like template names (only those with an extends / block edge are worth a second run)
     graphs = graphs + [dict(c, prefix="layouts/") for c in graphs if any(e["k"] in ("extends", "extblock") for e in c["g"].values())]
-    if tier == "thorough" and len(graphs) > 20000:
-        graphs = rnd.sample(graphs, 20000)
+    if tier == "thorough" and len(graphs) > 8000:
+        graphs = rnd.sample(graphs, 8000)
     for case, (tmpl, res) in zip(graphs, par.pmap(replay_graph, graphs, chunk=8)):
         ck.case(("A", case.get("prefix", ""), str(case["g"])), nontrivial=case["status"] != "ok")
         ck.validated()
@@ -260,7 +260,7 @@ def run(tier: str) -> int:
                 break
     # stack window: graphs whose cut-off is the interpreter's stack, replayed from every caller depth of a period
     win = [c for c in rrec.emitted if c.get("cut") == "stack"]
-    capw = 24 if tier == "quick" else 400
+    capw = 24 if tier == "quick" else 120
     if len(win) > capw:
         win = rnd.sample(win, capw)
     for case, (tmpl, bad) in zip(win, par.pmap(replay_window, win, chunk=2)):
@@ -282,7 +282,7 @@ def run(tier: str) -> int:
         if rr.violated:
             ck.fail(f"BlockParser.tla {rr.violated} violated", {"tlc": rr.out[-2000:]})
         cs = rr.emitted
-        cap = 8000 if tier == "quick" else 120000
+        cap = 8000 if tier == "quick" else 40000
         if len(cs) > cap:
             # unterminated sources (rejected for an unclosed block) are where recovery loops can spin: keep them all if possible
             open_ = [c for c in cs if c["unclosed"]]
